@@ -201,3 +201,6 @@ PENDING = {k: 'obligations for this property are not built yet (build in progres
 for k, v in NA.items():
     assert k not in PROPS
 
+
+# end-to-end replays (replay/e2e/src/main.rs) attached to a property: scenarios of defects found earlier
+E2E = {'C03': ['c03_nested_mix'], 'C12': ['c12_self_events'], 'C14': ['c14_dead_insert']}
